@@ -13,7 +13,7 @@ LEVEL = "exploration"
 ENGINE = "simhist"
 TIERS = {
     "quick": {"runs": 60000, "budget_s": 60, "chunk": 500},
-    "thorough": {"runs": 3000000, "budget_s": 1200, "chunk": 2000},
+    "thorough": {"runs": 12000000, "budget_s": 1500, "chunk": 4000},
 }
 RULE = ("one evaluation = one seeded history (4-40 operations, swarm-selected sub-alphabet) of "
         "set(mapping)/set(**kw)/with set(...) blocks (nested)/update_defaults/refresh/get/device "
